@@ -474,6 +474,27 @@ GROUPS[-1][2].extend([
 GROUPS[-1] = (GROUPS[-1][0], GROUPS[-1][1] + ["Sds.Model.RL"], GROUPS[-1][2])
 
 
+WM_LOOP_CALLS = dict(WM_CALLS, **{
+    "self.len": dict(lean="WMCore.len c", ret=U),
+    "<BitVector>.get": dict(lean="BitVector.get {0} {1}", ret=B),
+    "cmp::min": dict(lean="min {0} {1}", ret=U, monadic=False, args=[U, U]),
+    "self.map_down_one": dict(lean="gen_WMCore_map_down_one m c {0} {1}", ret=U),
+    "self.map_down_zero": dict(lean="gen_WMCore_map_down_zero m c {0} {1}", ret=U),
+    "self.map_up_one": dict(lean="gen_WMCore_map_up_one m c {0} {1}", ret=("O", U)),
+    "self.map_up_zero": dict(lean="gen_WMCore_map_up_zero m c {0} {1}", ret=("O", U)),
+    "self.bit_value": dict(lean="gen_WMCore_bit_value m c {0}", ret=W),
+})
+
+
+def wml(fn, **kw):
+    return dict(dict(file="wavelet_matrix/wm_core.rs", impl=r"impl WMCore\b", fn=fn, name="gen_WMCore_" + fn, self=WM_SELF,
+                     calls=WM_LOOP_CALLS), **kw)
+
+
+GROUPS[-1][2].extend([wml("map_down", local_types={"value": W}), wml("map_down_with"), wml("map_down_with_two_positions"),
+                      wml("map_up_with")])
+
+
 def generate_fn_files(read, consts_by_file):
     """read(rel) -> source text; consts_by_file: {rel: {NAME: int}} (module / associated constants visible in that file)"""
     files = {}
